@@ -16,7 +16,7 @@ RULE = ("members with names from a grammar of URL-significant and non-ASCII char
 
 FEATS = [("leading-blank", lambda n: n[:1] == " "), ("colon", lambda n: ":" in n), ("question", lambda n: "?" in n), ("hash", lambda n: "#" in n), ("semicolon", lambda n: ";" in n),
          ("pct-escape-literal", lambda n: re.search(r"%[0-9A-Fa-f]{2}", n) is not None), ("percent", lambda n: "%" in n), ("backslash", lambda n: "\\" in n),
-         ("space", lambda n: " " in n), ("plus", lambda n: "+" in n), ("nonascii", lambda n: any(ord(c) > 127 for c in n)),
+         ("latin1-pair-that-is-valid-utf8", lambda n: any(x in n for x in ("Ã©", "Â£", "Ã¼", "Ã\xa0"))), ("space", lambda n: " " in n), ("plus", lambda n: "+" in n), ("nonascii", lambda n: any(ord(c) > 127 for c in n)),
          ("other-special", lambda n: any(c in n for c in "&=@,'()~!$*[]{}|^`\"<>")), ("long", lambda n: len(n) > 100)]
 
 
@@ -28,7 +28,9 @@ def feature(name):
 
 
 NAME_ATOMS = [" ", "%", "%41", "%2F", "%2f", "#", "?", ";", "+", "&", "=", "@", ",", "'", "(", ")", "~", ":", "!", "$", "*", "é", "ü", "日本", "😀", "é", "İ", "[", "]",
-              "{", "}", "|", "^", "`", "\"", "<", ">", "\\", "a b", "..", "..."]
+              "{", "}", "|", "^", "`", "\"", "<", ">", "\\", "a b", "..", "...",
+              # Latin-1-range characters whose UTF-8 bytes... are themselves what a mis-decoded name looks like: 'Ã©' must stay 'Ã©'
+              "Ã©", "Â£", "Ã¼", "Ã\xa0"]
 
 
 def gen_names(rng, n, ext):
@@ -37,6 +39,14 @@ def gen_names(rng, n, ext):
     atoms = list(NAME_ATOMS)
     rng.shuffle(atoms)
     i = 0
+    # names made of ASCII and Latin-1-range characters only, whose bytes are valid UTF-8 as a whole
+    # ... together with the name those bytes would give if they were decoded once more: two different members
+    for fixed in rng.sample(["cafÃ©", "Â£5", "fÃ¼r", "nÃ©e Â£", "Ã©"], 2):
+        if n >= 6:
+            for nm in (fixed, fixed.encode("latin-1").decode("utf-8")):
+                if nm + ext not in seen:
+                    seen.add(nm + ext)
+                    out.append(nm + ext)
     while len(out) < n:
         k = rng.choice([1, 1, 2])
         s = rng.choice(["", "n", "N1"])
@@ -474,7 +484,7 @@ def check(tier, seed, t0):
     stored = c.get("names_stored", 0)
     guards = [("names stored", stored, 800 * k), ("hrefs dereferenced", c.get("hrefs_dereferenced", 0), 6000 * (1 if not th else 7)),
               ("share of generated names stored (percent)", 100 * stored // max(1, c.get("names_tried", 0)), 80)]
-    for f in ("colon", "question", "hash", "semicolon", "percent", "space", "plus", "nonascii", "other-special", "pct-escape-literal"):
+    for f in ("colon", "question", "hash", "semicolon", "percent", "space", "plus", "nonascii", "other-special", "pct-escape-literal", "latin1-pair-that-is-valid-utf8"):
         guards.append(("stored names with feature " + f, c.get("stored:" + f, 0), 3))
     for src in ("propfind1", "propfind1-noslash", "sync", "multiget", "query", "post-location", "proppatch-response", "propfind-404-body", "precondition-error-body", "href-valued-property", "add-member-in-listing"):
         guards.append(("hrefs from " + src, c.get("hrefs:" + src, 0), 10))
